@@ -4,6 +4,7 @@ import Dashu.Model.Mem.Arith
 import Dashu.Model.Mem.Arith2
 import Dashu.Model.Mem.Arith3
 import Dashu.Model.Mem.Arith4
+import Dashu.Model.Mem.Arith5
 import Dashu.Model.Mem.Memory
 /-
   Driver of group `mem` (C17).
@@ -305,7 +306,8 @@ def arith (W : Nat) (op form a b : String) : Option String := do
   let sqS := Dashu.Gen.sqr_MAX_LEN_SIMPLE
   let signedB := op = "iadd" || op = "isub" || op = "imul" || op = "idiv" || op = "irem" || op = "idivrem" ||
     op = "iand" || op = "ior" || op = "ixor" || op = "igcd" || op = "igcdext" || op = "gcd_ui" || op = "gcd_iu" ||
-    op = "gcdext_ui" || op = "gcdext_iu"
+    op = "gcdext_ui" || op = "gcdext_iu" ||
+    op = "idiveuc" || op = "iremeuc" || op = "idivremeuc"
   let signed := signedB || op = "ishl" || op = "ishr" || op = "ipow" || op = "inot"
   let xi ← (if signed then parseInt a else (fun n : Nat => (n : Int)) <$> parseNat a)
   let x := xi.natAbs
@@ -342,6 +344,16 @@ def arith (W : Nat) (op form a b : String) : Option String := do
       let ys := natWords W yi.natAbs
       let kind := if op = "idiv" then 0 else if op = "irem" then 1 else 2
       pure (fragSignedDiv W kind (← (if op = "idivrem" then parseForm form else parseFormA form)) (decide (xi < 0)) xs (decide (yi < 0)) ys, some ys)
+    -- round 6: `IBig`'s Euclidean division family (div_ops.rs `impl_ibig_div_euclid / rem_euclid / divrem_euclid`)
+    | "idiveuc" | "iremeuc" | "idivremeuc" => do
+      let yi ← parseInt b
+      let ys := natWords W yi.natAbs
+      let f ← parseForm form
+      let na := decide (xi < 0)
+      let nb := decide (yi < 0)
+      pure (if op = "idiveuc" then fragSignedDivEuclid W f na xs nb ys
+            else if op = "iremeuc" then fragSignedRemEuclid W f na xs ys
+            else fragSignedDivRemEuclid W f na xs nb ys, some ys)
     | "iand" | "ior" | "ixor" => do
       let yi ← parseInt b
       let ys := natWords W yi.natAbs
